@@ -372,6 +372,8 @@ type exec struct {
 	allowed     *Term
 	midBody     bool
 	noSplit     bool
+	paramSlices map[*Obj]*Slice
+	tableDone   map[string]bool
 	inPrune     bool
 	lemmaTimeout int
 	copyN       int
@@ -823,6 +825,13 @@ func (ex *exec) update(v Value, path []Sel, nv Value, pos token.Pos) Value {
 func (ex *exec) load(st *State, p *Ptr, pos token.Pos) Value {
 	if p.Obj == nil {
 		ex.fail(pos, "load through nil pointer")
+	}
+	if p.Obj.global && len(p.Path) == 1 && p.Path[0].Field < 0 && !p.Path[0].Idx.IsConst() && ex.mode == ModeBV {
+		if fn, ok := ex.eng.tables[p.Obj.name]; ok {
+			if v := ex.tableRead(st, p.Obj, fn, p.Path[0].Idx, pos); v != nil {
+				return v
+			}
+		}
 	}
 	v, ok := st.heap[p.Obj]
 	if !ok {
@@ -2061,4 +2070,47 @@ func constToBig(v constant.Value) *big.Int {
 		}
 	}
 	return nil
+}
+
+// tableRead: a read of a constant package-level table at a symbolic index is the table's
+// specification function applied to the index.  The ground obligation "every entry equals the
+// function at that index" is generated once per function (decided by evaluating all entries).
+func (ex *exec) tableRead(st *State, o *Obj, fn string, idx *Term, pos token.Pos) Value {
+	arr, ok := ex.globalInit[o].(*Term)
+	if !ok || arr.Sort.K != KArr {
+		return nil
+	}
+	at, ok := o.T.Underlying().(*types.Array)
+	if !ok {
+		return nil
+	}
+	n := at.Len()
+	bits := 0
+	for (int64(1) << uint(bits)) < n {
+		bits++
+	}
+	if int64(1)<<uint(bits) != n {
+		return nil
+	}
+	res := specResult[fn]
+	if res == nil || res != arr.Sort.Elem {
+		return nil
+	}
+	if !ex.tableDone[o.name] {
+		if ex.tableDone == nil {
+			ex.tableDone = map[string]bool{}
+		}
+		ex.tableDone[o.name] = true
+		var cs []*Term
+		for x := int64(0); x < n; x++ {
+			cs = append(cs, Eq(Select(arr, BVC64(64, x)), UF(fn, res, BVC64(bits, x))))
+		}
+		empty := &State{vars: st.vars, heap: st.heap, ghost: st.ghost, gver: st.gver}
+		saved := ex.noSplit
+		ex.noSplit = true
+		ex.oblige(empty, "table", o.name, And(cs...), pos)
+		ex.noSplit = saved
+		ex.obligs[len(ex.obligs)-1].NoAbstract = true
+	}
+	return UF(fn, res, Extract(bits-1, 0, idx))
 }
